@@ -229,6 +229,17 @@ impl<Aux> Vm<'_, Aux> {
         C: VmFunction<Aux> + 'static,
     {
         let key = Handle::from_str(name.as_ref()).unwrap();
+        // functions are looked up by the 32 bit hash of their name: a name whose hash is taken by
+        // another name must not replace that function
+        if let Some(existing) = self.callables.get(key) {
+            if existing.name != name.as_ref() {
+                return Err(ExecutionErrorPayload::invalid_argument(format!(
+                    "Native function name {} collides with {}",
+                    name.as_ref(),
+                    existing.name
+                )));
+            }
+        }
         self.callables
             .insert(
                 key,
